@@ -346,3 +346,23 @@ Example C08_new_batch_q_then_close_nonvacuous :
   is_locked (fst (fst rq)) = true /\ is_locked (fst (fst rc)) = false.
 Proof. exact demo_new_q_close. Qed.
 Print Assumptions C08_new_batch_q_then_close.
+
+(** The events of that Close are the events of the plain NewBatch (entities, order, recipients,
+    masks, relation, event types, lock flag), with AddedIDs = the node's ascending id list. *)
+From Arche Require Import Proofs.BatchNewQEvents.
+Theorem C08_new_batch_q_close_events : forall w A count b target w2 h evs2 w' es evs',
+  R w A -> ids_reg A (b_ids b) ->
+  op_new_batch_q w count b target = (w2, Ok (VNat h), evs2) ->
+  op_new_batch w count b target = (w', Ok (VEnts es), evs') ->
+  exists w3 evs3, step w2 (OQClose h) = (w3, Ok VUnit, evs3) /\
+    evs3 = map (ev_set_added_ids (mask_ids (w_tb w) (new_mask (b_ids b)))) evs'.
+Proof. exact new_batch_q_close_events. Qed.
+Example C08_new_batch_q_close_events_nonvacuous :
+  let w := run demo_bc_world [OSetListener (Some (LCallback (mkL 63 None)))] in
+  let rq := step w (OBBatchQ (mkB [1; 0] None (Some 1)) 3%Z (Some (mkE 1 0))) in
+  let rc := step (fst (fst rq)) (OQClose 0) in
+  let rp := step w (OBBatch (mkB [1; 0] None (Some 1)) 3%Z (Some (mkE 1 0))) in
+  snd rc = map (ev_set_added_ids [0; 1]) (snd rp) /\ length (snd rp) = 3 /\
+  map ev_added_ids (snd rp) = [[1; 0]; [1; 0]; [1; 0]] /\ map ev_added_ids (snd rc) = [[0; 1]; [0; 1]; [0; 1]].
+Proof. exact demo_new_q_close_events. Qed.
+Print Assumptions C08_new_batch_q_close_events.
